@@ -701,7 +701,15 @@ func (r *Runner) step(op string) string {
 		before := r.snapNow()
 		tipBefore := n.Tip()
 		if w[0] == "pv" {
+			// sy=1: the block is applied the way the synchronisers apply it - processValidated is their
+			// processor and Executer.process holds the syncying flag while syncer.Sync runs
+			if a["sy"] == "1" {
+				n.Exec.VerifC04SetSyncing(true)
+			}
 			err := n.ProcessValidated(b, a["rt"] == "1")
+			if a["sy"] == "1" && n.Exec != nil {
+				n.Exec.VerifC04SetSyncing(false)
+			}
 			evs := n.DrainEvents()
 			applied := n.Tip() != nil && bytes.Equal(n.Tip().Header.ID, b.Header.ID) && !bytes.Equal(tipBefore.Header.ID, b.Header.ID)
 			res := "ok"
@@ -889,6 +897,8 @@ func (r *Runner) step(op string) string {
 			r.fail("c04-restart-changed-state", fmt.Sprintf("tip after restart %x, before %x", []byte(n.Tip().Header.ID), tipID))
 		}
 		return r.state(res, evs)
+	case "sctx":
+		return r.syncContext()
 	case "cleartemp":
 		n.Chain.DataAccess().ClearTempBlocks()
 		return r.state("ok", n.DrainEvents())
@@ -909,6 +919,52 @@ func (r *Runner) step(op string) string {
 		return r.twin()
 	}
 	return "bad-op"
+}
+
+// syncContext runs Executer.createSyncContext (what Executer.process hands to the synchronisers when a
+// block of a different chain arrives) and checks the finalized block header it carries: the fast
+// synchroniser refuses common blocks below it, the block synchroniser never asks for heights below it.
+// It must be the block stored at the STORED finalized height - also right after a restart, when nothing
+// has been applied yet by this Executer object.
+func (r *Runner) syncContext() string {
+	n := r.n
+	if n.Tip() == nil {
+		return "unsupported" // createSyncContext dereferences Chain.LastBlock()
+	}
+	var sc *sync.SyncContext
+	var err error
+	func() {
+		defer func() {
+			if x := recover(); x != nil {
+				err = &node.PanicError{Value: x}
+			}
+		}()
+		sc, err = n.Exec.VerifC04CreateSyncContext(context.Background(), n.Tip(), n.PeerID)
+	}()
+	if err != nil {
+		if isPanic(err) {
+			r.fail("node-panic", "createSyncContext: "+err.Error())
+			return "panic"
+		}
+		r.fail("c04-sync-context-finalized-wrong", "createSyncContext failed: "+err.Error())
+		return "err"
+	}
+	fh := sc.FinalizedBlockHeader
+	if fh == nil {
+		r.fail("c04-sync-context-finalized-wrong", "createSyncContext returned no finalized block header")
+		return "err"
+	}
+	stored := n.Finalized()
+	dbid, _ := n.DB.Get(key32(4, stored))
+	if fh.Height != stored || !bytes.Equal(fh.ID, dbid) {
+		r.fail("c04-sync-context-finalized-wrong", fmt.Sprintf("sync context carries block %x at height %d as finalized block; the stored finalized height is %d (block %x)", []byte(fh.ID), fh.Height, stored, dbid))
+	} else if old, ok := r.finalIDs[stored]; ok && !bytes.Equal(old, fh.ID) {
+		r.fail("c04-sync-context-finalized-wrong", fmt.Sprintf("sync context carries block %x at the finalized height %d; the block finalized there was %x", []byte(fh.ID), stored, old))
+	}
+	if stored < r.fin {
+		r.fail("c04-fin-decreased", fmt.Sprintf("finalized height %d -> %d", r.fin, stored))
+	}
+	return fmt.Sprintf("ok sfin=%d sfz=%s", fh.Height, short(fh.ID))
 }
 
 // twin replays the current chain on a second node with the same keys and genesis block and
